@@ -59,6 +59,14 @@ package roothash
 //@   note the queue of armed round timeouts holds, per runtime, exactly the timeout recorded in the runtime state: whenever the recorded timeout changes, the previously armed entry (at whatever height, past, present or future) is cleared and the new one armed (0 = TimeoutNever). A stale entry left behind fires for a runtime that may be suspended by then, and processRoundTimeouts returns that error from EndBlock (seed C10_f)
 //@   note writes only the round-timeout keys of the consensus state (frame assumed: the state accessors are outside the contracts)
 
+//@ func Application.finalizeBlock
+//@   props C11
+//@   bodyonly
+//@   requires app != nil && ctx != nil && rtState != nil
+//@   assume-pre roothash\.rearmRoundTimeout$
+//@   precall roothash\.rearmRoundTimeout$ :: (hdrType == block.Suspended && rtState.CommitmentPool == nil) || (hdrType != block.Suspended && rtState.CommitmentPool != nil && fresh(rtState.CommitmentPool))
+//@   note EVERY new runtime block - normal, failed round, epoch transition, ... - starts its successor round with a NEW, empty commitment pool (none for a suspended runtime): votes and the scheduler ranking collected for one round are never counted in another round, against another committee (seed C11_k kept the pool across an epoch-transition block: the stale votes finalized the next round on a result nobody of the new committee voted for)
+
 //@ func Application.failRound
 //@   props C10
 //@   ensures result == nil || fresh(result)
